@@ -34,12 +34,12 @@ func C18() runner.Property {
 	}
 }
 
-// 3 namespaces x 3 names x all label maps over 2 keys x 3 values (each key absent or one value).
+// 3 namespaces x 3 names (one of them also a namespace string) x all label maps over 2 keys x {3 values, the empty string} (each key absent or one value).
 func c18Objects() []metav1.Object {
 	var out []metav1.Object
 	for _, ns := range []string{"a", "b", "c"} {
-		for _, n := range []string{"x", "y", "z"} {
-			for _, l := range labelMaps([]string{"1", "2", "3"}) {
+		for _, n := range []string{"x", "y", "a"} { // "a" is also a namespace
+			for _, l := range labelMapsE([]string{"1", "2", "3"}) {
 				out = append(out, mkPod(ns, n, l, ""))
 			}
 		}
@@ -47,7 +47,7 @@ func c18Objects() []metav1.Object {
 	return out
 }
 
-type bv3 [3]uint64
+type bv3 [4]uint64
 
 func toBV3(b BV) (k bv3) { copy(k[:], b); return }
 
@@ -133,7 +133,7 @@ func c18Extra(tier string, seed int64) *runner.ExtraResult {
 	}
 	d3atoms := atomsUpTo(atoms, d3l)
 	base := dedupe(append(append([]*Term(nil), d3atoms...), closure(d3atoms)...)) // children of depth-3 terms
-	if len(c18Objects()) > 192 {
+	if len(c18Objects()) > 256 {
 		res.Note = "ENGINE: object universe larger than bv3"
 		return res
 	}
@@ -325,6 +325,54 @@ func c18Extra(tier string, seed int64) *runner.ExtraResult {
 		checkMutation(w, rk, "the shared-base composites")
 	}
 
+	// 4. the caller changes its argument after construction: Labels(m) and LabelSelector(ls) must keep the meaning they
+	// were built with (And/Or keep the variadic slice by design - the usual Go caveat - and are not subjected to this)
+	var mutatedArgs int64
+	{
+		w := worlds[0]
+		rk := rank + int64(B)*int64(B)*5 + 1_000_000
+		for _, m := range labelMapsE([]string{"1", "2"}) {
+			if len(m) == 0 {
+				continue
+			}
+			t := tLabels(m)
+			arg := copyMap(m)
+			f := filter.Labels(arg)
+			a1, _ := w.eval(f)
+			for k := range arg {
+				arg[k] = "changed"
+			}
+			arg["extra"] = "1"
+			a2, b2 := w.eval(f)
+			if d := a1.firstDiff(a2); d >= 0 {
+				o := descObj(w.pristine[d])
+				fs.add("c18/purity", "Labels keeps evaluating against the caller's map", rk, func() string {
+					return fmt.Sprintf("%s accepted=%v on %s; after the caller changed the map it had passed in, the same filter accepts=%v", t.Name, a1.get(d), o, a2.get(d))
+				})
+			}
+			r := newBV(w.n)
+			for k, o := range w.pristine {
+				if t.Ref(o) {
+					r.set(k)
+				}
+			}
+			compare(w, a2, b2, r, rk, func() *Term { return t })
+			mutatedArgs++
+			rk++
+		}
+		ls := &metav1.LabelSelector{MatchLabels: map[string]string{K1: "1"}, MatchExpressions: []metav1.LabelSelectorRequirement{{Key: K2, Operator: metav1.LabelSelectorOpExists}}}
+		f := filter.LabelSelector(ls)
+		a1, _ := w.eval(f)
+		ls.MatchLabels[K1] = "2"
+		ls.MatchExpressions[0].Operator = metav1.LabelSelectorOpDoesNotExist
+		if a2, _ := w.eval(f); a1.firstDiff(a2) >= 0 {
+			fs.add("c18/purity", "LabelSelector keeps evaluating against the caller's selector", rk, func() string {
+				return "LabelSelector{k1=1; k2 Exists} changes its verdict after the caller mutated the selector it had passed in"
+			})
+		}
+		mutatedArgs++
+	}
+
 	for _, f := range capViolations(fs.m, 10) {
 		res.Violations = append(res.Violations, explore.Violation{Scenario: f.scenario, Messages: []string{f.msg()}, Signature: f.sig})
 	}
@@ -370,6 +418,7 @@ func c18Extra(tier string, seed int64) *runner.ExtraResult {
 	cov["terms_depth_le2_full_atom_set"] = len(explicit)
 	cov["terms_depth3_reduced_atom_set"] = d3terms
 	cov["terms_built_from_a_shared_base"] = sharedTerms
+	cov["filters_whose_argument_was_mutated_after_construction"] = mutatedArgs
 	cov["atoms"] = len(atoms)
 	cov["atoms_by_constructor"] = byCtor
 	cov["depth3_atoms"] = d3names
